@@ -70,7 +70,7 @@ def plan(tier):
                 "thorough) plus |p| in {1,2,w/2+1,w-1,w,w+1(refused)} and 1-5 blocks of u8, u16/u32 blocks, u64 blocks "
                 "with |p| in {63,64,65,128,129,200}; texts empty, shorter than p, p, mutated p, planted approximate and "
                 "partial copies (for the block version also copies whose edits all lie left of a block boundary) up to "
-                "300 symbols; unary runs filling the leading blocks exactly followed by a tail with one substitution; hits of distance exactly k whose k edits all lie left of a block seam (head v x c^r | B, text v* c^(r+1) B), enumerated over u8/u16 blocks, 2-3 blocks, every seam, k<=3. ukkonen: one object reused for patterns of different lengths, unit "
+                "300 symbols; unary runs filling the leading blocks exactly followed by a tail, the text run 1-3 symbols longer (exact hit, k=0) or with one substitution; hits of distance exactly k whose k edits all lie left of a block seam (head v x c^r | B, text v* c^(r+1) B), enumerated over u8/u16 blocks, 2-3 blocks, every seam, k<=3. ukkonen: one object reused for patterns of different lengths, unit "
                 "cost and cost tables with entries 0..3 (also non-zero diagonal). dist: all pairs over {a,b} up to "
                 "length 3/4, lengths around the SIMD lanes up to 129 (300 thorough), bounds {0,d-1,d,d+1,max-1,max,"
                 "max+1,u32::MAX}, Hamming up to 3000 symbols. distinct_nontrivial counts runs (distinct by construction: "
